@@ -5,7 +5,8 @@
    a number occupies is inside the model (strtod_end, section 10). *)
 Require Import ZArith List Lia.
 Require Import IW.Lib.CInt IW.Gen.Facts IW.JSON.Val IW.JSON.Utf8 IW.JSON.Text IW.JSON.TextSpec
-               IW.JSON.Utf8_proofs IW.JSON.Text_proofs IW.JSON.TextNumSpec IW.JSON.TextNum_proofs.
+               IW.JSON.Utf8_proofs IW.JSON.Text_proofs IW.JSON.TextNumSpec IW.JSON.TextNum_proofs
+               IW.JSON.TextChan IW.JSON.TextChan_proofs.
 Import ListNotations. Local Open Scope Z_scope.
 
 (* (1) every valid string body - raw bytes, the eight short escapes, \uXXXX in either case, surrogate pairs -:
@@ -214,4 +215,68 @@ Proof.
     repeat (apply Forall_cons; [unfold dchar; lia|]). apply Forall_nil.
   - right. exists 101, [43], [48; 53]. split; [reflexivity|]. split; [left; reflexivity|]. split; [right; left; reflexivity|].
     split; [discriminate|]. repeat (apply Forall_cons; [unfold dchar; lia|]). apply Forall_nil.
+Qed.
+
+(* (11) print channels (JSON/TextChan.v).  A printer writes nothing itself: it makes calls pt(data, size, ch, count, op)
+   of a printer callback - single characters with a count (data == NULL; every punctuation character, every string byte
+   that is written raw, the indentation) or a buffer with a size or -1 (escapes, numbers, literals, ": ").
+   `as_json_chunks` / `jbl_as_json_chunks` are these calls for jbn_as_json / jbl_as_json; `chan_xstr`, `chan_fstream`,
+   `chan_count` fold them into jbl_xstr_json_printer, jbl_fstream_json_printer, jbl_count_json_printer.
+   (a) for EVERY document (any bytes 0..255 in strings and keys, int64 integers, doubles through `fo`), every flag set:
+       the calls concatenate to the text of `as_json` (the function the round-trip theorems (2), (7), (9) speak about),
+       every sink receives exactly that text and the count printer its length - the text does not depend on the channel;
+       when the printer fails (E_UTF8 with the code-point flag), it fails in the same way whatever the sink;
+   (b) every call the printers make is one all sinks understand alike (`chunk_ok`: counts are not negative, a sized
+       buffer holds no NUL before its size - jbl_fstream_json_printer writes buffers with "%.*s", which stops at a NUL);
+   (c) T1: one call of each exported callback of the CURRENT tree for every byte 0..255 in six shapes (single character
+       x count 1, 3, 0; buffer with size, with -1 and count 2, with size 1 and count 1), regenerated into Gen/Facts.v,
+       is what the model sinks do: a changed callback breaks this obligation.
+   Assumptions: no I/O or allocation failure in a sink; the count stays below 2^31 (C int). *)
+Theorem C13_channels_node : forall fo pf, (forall b, cstr0 (fo b) = fo b) -> forall v t, wfd v -> as_json fo pf v = Ok t ->
+  exists cs, as_json_chunks fo pf v = Ok cs /\ chunks_bytes cs = t /\
+             chan_xstr cs = t /\ chan_fstream cs = t /\ chan_count cs = Z.of_nat (length t).
+Proof. exact node_channels. Qed.
+Print Assumptions C13_channels_node.
+
+Theorem C13_channels_node_err : forall fo pf, (forall b, cstr0 (fo b) = fo b) -> forall v e, wfd v ->
+  as_json fo pf v = Err e -> as_json_chunks fo pf v = Err e.
+Proof. exact node_channels_err. Qed.
+Print Assumptions C13_channels_node_err.
+
+Theorem C13_channels_jbl : forall fo pf, (forall b, cstr0 (fo b) = fo b) -> forall v t, wfd v -> jbl_as_json fo pf v = Ok t ->
+  exists cs, jbl_as_json_chunks fo pf v = Ok cs /\ chunks_bytes cs = t /\
+             chan_xstr cs = t /\ chan_fstream cs = t /\ chan_count cs = Z.of_nat (length t).
+Proof. exact jbl_channels. Qed.
+Print Assumptions C13_channels_jbl.
+
+Theorem C13_chunks_ok : forall fo pf v cs, wfd v ->
+  (as_json_chunks fo pf v = Ok cs \/ jbl_as_json_chunks fo pf v = Ok cs) -> Forall chunk_ok cs.
+Proof.
+  intros fo pf v cs Hwf [H|H]; [eapply emit_node_ok|eapply emit_jbl_ok]; try exact H; try exact Hwf; lia.
+Qed.
+Print Assumptions C13_chunks_ok.
+
+(* the sinks alone: whatever sequence of well-formed calls arrives (not only a printer's), the three callbacks agree *)
+Theorem C13_sinks_agree : forall cs, Forall chunk_ok cs ->
+  chan_xstr cs = chunks_bytes cs /\ chan_fstream cs = chunks_bytes cs /\ chan_count cs = Z.of_nat (length (chunks_bytes cs)).
+Proof. intros cs H. split; [apply chan_xstr_bytes|split; [apply chan_fstream_bytes|apply chan_count_len]]; exact H. Qed.
+Print Assumptions C13_sinks_agree.
+
+Theorem C13_sink_tables : forall b, 0 <= b < 256 -> sink_tables_ok b = true.
+Proof. exact sink_tables. Qed.
+Print Assumptions C13_sink_tables.
+
+(* {"k\195\169":["\240\157\140\134\000\255",-5,true]} pretty-printed with two spaces: seven single-character calls carry a byte
+   >= 0x80 as a negative char (signed char), and the three sinks hold the same 54 bytes *)
+Example C13_channels_example :
+  let v := JObj [([107; 195; 169], JArr [JStr [240; 157; 140; 134; 0; 255]; JI64 (-5); JBool true])] in
+  wfd v /\
+  exists cs, as_json_chunks (fun _ => []) 5 v = Ok cs /\ Forall chunk_ok cs /\
+    In (CCh (-61) 1) cs /\ In (CCh (-1) 1) cs /\ In (CBuf [92; 117; 48; 48; 48; 48] 6 0) cs /\ In (CCh 32 4) cs /\
+    as_json (fun _ => []) 5 v = Ok (chan_fstream cs) /\ chan_xstr cs = chan_fstream cs /\ chan_count cs = 54.
+Proof.
+  cbv zeta. split; [cbn; repeat (split || constructor); unfold byte255; lia|].
+  eexists. split; [vm_compute; reflexivity|].
+  split; [repeat (apply Forall_cons; [vm_compute; intuition (try discriminate; try lia)|]); apply Forall_nil|].
+  repeat split; try (vm_compute; reflexivity); cbn [In]; repeat (first [left; reflexivity | right]).
 Qed.
